@@ -115,35 +115,103 @@ func Def(name string) *TableDef {
 	return nil
 }
 
-// MySQLOrder is a table as MySQL has it: struct columns in some order, possibly with extra columns.
+// MySQLOrder is one version of a table as MySQL has it: the struct's columns in some order, possibly
+// with extra columns, possibly without some.  The rows live in fakesql in struct column order; the
+// database order is a view used for the information_schema answer and for the binlog row images, so an
+// ALTER TABLE is a new MySQLOrder with a new TableID.
 type MySQLOrder struct {
-	Def  *TableDef
-	Cols []ColMeta // database order; a column with Name "x_extra<k>" is unknown to the struct
+	Def     *TableDef
+	Cols    []ColMeta // database order; a column named "x_extra..." is unknown to the struct
+	TableID uint64
 }
 
-// Layout picks a database column order for the table: a permutation, sometimes with an extra column.
+func shuffle(r *vh.Rng, cols []ColMeta) {
+	for i := len(cols) - 1; i > 0; i-- {
+		j := r.Intn(i + 1)
+		cols[i], cols[j] = cols[j], cols[i]
+	}
+}
+
+// Layout picks the first database column order for the table: a permutation, sometimes with an extra column.
 func Layout(r *vh.Rng, d *TableDef) *MySQLOrder {
 	cols := append([]ColMeta{}, d.Cols...)
 	if r.Chance(60) {
-		for i := len(cols) - 1; i > 0; i-- {
-			j := r.Intn(i + 1)
-			cols[i], cols[j] = cols[j], cols[i]
-		}
+		shuffle(r, cols)
 	}
 	if r.Chance(30) {
 		at := r.Intn(len(cols) + 1)
 		extra := ColMeta{Name: "x_extra", Type: fakesql.Int, Width: 32, Nullable: true}
 		cols = append(cols[:at], append([]ColMeta{extra}, cols[at:]...)...)
 	}
-	return &MySQLOrder{Def: d, Cols: cols}
+	return &MySQLOrder{Def: d, Cols: cols, TableID: 1}
 }
 
+// Alter returns the table after an ALTER TABLE (new TableID) and says what kind it was:
+// "reorder" (columns moved, count kept), "swap" (two columns of the same MySQL type trade places: the old
+// column map still decodes without error), "add" (one more column), "drop" (an extra column removed) or
+// "reopen" (nothing changed but the id, as after FLUSH TABLES).
+func (m *MySQLOrder) Alter(r *vh.Rng) (*MySQLOrder, string) {
+	cols := append([]ColMeta{}, m.Cols...)
+	n := &MySQLOrder{Def: m.Def, TableID: m.TableID + 1}
+	kind := "reorder"
+	switch k := r.Intn(10); {
+	case k < 3:
+		shuffle(r, cols)
+	case k < 6:
+		kind = "swap"
+		var pairs [][2]int
+		for i := range cols {
+			for j := i + 1; j < len(cols); j++ {
+				a, b := cols[i], cols[j]
+				if a.Type == b.Type && a.Width == b.Width && a.Varchar == b.Varchar && !a.Primary && !b.Primary {
+					pairs = append(pairs, [2]int{i, j})
+				}
+			}
+		}
+		if len(pairs) == 0 {
+			shuffle(r, cols)
+			kind = "reorder"
+		} else {
+			p := pairs[r.Intn(len(pairs))]
+			cols[p[0]], cols[p[1]] = cols[p[1]], cols[p[0]]
+		}
+	case k < 8:
+		kind = "add"
+		at := r.Intn(len(cols) + 1)
+		extra := ColMeta{Name: fmt.Sprintf("x_extra%d", n.TableID), Type: fakesql.Int, Width: 32, Nullable: true}
+		cols = append(cols[:at], append([]ColMeta{extra}, cols[at:]...)...)
+	case k < 9:
+		kind = "reopen"
+		for i, c := range cols {
+			if strings.HasPrefix(c.Name, "x_extra") {
+				cols = append(cols[:i], cols[i+1:]...)
+				kind = "drop"
+				break
+			}
+		}
+	default:
+		kind = "reopen"
+	}
+	n.Cols = cols
+	return n, kind
+}
+
+// Create makes the fakesql table (struct column order).
 func (m *MySQLOrder) Create(srv *fakesql.Server) {
 	var cs []fakesql.Column
-	for _, c := range m.Cols {
+	for _, c := range m.Def.Cols {
 		cs = append(cs, fakesql.Column{Name: c.Name, Type: c.Type, Primary: c.Primary, Nullable: c.Nullable || !c.Primary})
 	}
 	srv.CreateTable(m.Def.Name, cs)
+}
+
+// ColumnNames is the information_schema.columns answer for this version.
+func (m *MySQLOrder) ColumnNames() []string {
+	out := make([]string, len(m.Cols))
+	for i, c := range m.Cols {
+		out[i] = c.Name
+	}
+	return out
 }
 
 // Source is columnMap.source: for every struct column its position in database order.
@@ -160,13 +228,19 @@ func (m *MySQLOrder) Source() []int {
 	return out
 }
 
-// BinlogRow turns a committed row image (fakesql canonical values, database order) into what the go-mysql
-// row decoder of this repository's go.mod hands back: the signed integer of the column's width (also for
-// UNSIGNED columns), float64, string for VARCHAR, []byte for BLOB/TEXT, "2006-01-02 15:04:05" for DATETIME.
+// BinlogRow turns a committed row image (fakesql canonical values, struct column order) into what the
+// go-mysql row decoder of this repository's go.mod hands back for this version of the table: values in
+// database order; the signed integer of the column's width (also for UNSIGNED columns), float64, string
+// for VARCHAR, []byte for BLOB/TEXT, "2006-01-02 15:04:05" for DATETIME; extra columns hold NULL.
 func (m *MySQLOrder) BinlogRow(image []driver.Value) []interface{} {
-	out := make([]interface{}, len(image))
-	for j, v := range image {
-		c := m.Cols[j]
+	out := make([]interface{}, len(m.Cols))
+	for j, c := range m.Cols {
+		var v driver.Value
+		for i, sc := range m.Def.Cols {
+			if sc.Name == c.Name {
+				v = image[i]
+			}
+		}
 		switch x := v.(type) {
 		case nil:
 			out[j] = nil
@@ -210,8 +284,16 @@ func (m *MySQLOrder) BinlogRow(image []driver.Value) []interface{} {
 	return out
 }
 
+// TableMapEvent is the event that precedes the rows events of a table and carries its current id.
+func TableMapEvent(database, table string, id uint64, columns int) *replication.BinlogEvent {
+	return &replication.BinlogEvent{
+		Header: &replication.EventHeader{EventType: replication.TABLE_MAP_EVENT},
+		Event:  &replication.TableMapEvent{Schema: []byte(database), Table: []byte(table), TableID: id, ColumnCount: uint64(columns)},
+	}
+}
+
 // RowsEvent builds the event the binlog syncer would deliver for one changed row.
-func RowsEvent(database, table string, before, after []interface{}) *replication.BinlogEvent {
+func RowsEvent(database, table string, id uint64, before, after []interface{}) *replication.BinlogEvent {
 	var typ replication.EventType
 	var rows [][]interface{}
 	n := 0
@@ -226,7 +308,7 @@ func RowsEvent(database, table string, before, after []interface{}) *replication
 	return &replication.BinlogEvent{
 		Header: &replication.EventHeader{EventType: typ},
 		Event: &replication.RowsEvent{
-			Table:       &replication.TableMapEvent{Schema: []byte(database), Table: []byte(table), TableID: 1},
+			Table:       &replication.TableMapEvent{Schema: []byte(database), Table: []byte(table), TableID: id, ColumnCount: uint64(n)},
 			ColumnCount: uint64(n),
 			Rows:        rows,
 		},
